@@ -102,7 +102,7 @@ func genROp(t *rapid.T, nest bool) ROp {
 }
 
 func genRFaultCase(t *rapid.T, prop string) *Case {
-	o := WorldOpts{MinBuilds: 1, MaxBuilds: 2, MaxMerges: 1, BigPct: 0, MaxTinyDocs: 6, Stores: []string{StoreFile}, MoreDV: true}
+	o := WorldOpts{NoExtremes: true, MinBuilds: 1, MaxBuilds: 2, MaxMerges: 1, BigPct: 0, MaxTinyDocs: 6, Stores: []string{StoreFile}, MoreDV: true}
 	wd := GenWorld(t, o)
 	rc := &RFaultCase{Seg: rapid.IntRange(0, 5).Draw(t, "seg"), OSFile: rapid.IntRange(0, 19).Draw(t, "osfile") == 0}
 	n := rapid.IntRange(3, 12).Draw(t, "nops")
